@@ -205,7 +205,7 @@ PROPS["C02"].update(
     level_note=_NOTE + "the reference-decoder clause is not covered (no RFC 6716 reference decoder offline)",
     technique=_TECH + "seeded plans, lock-step replica oracle")
 PROPS["C05"].update(
-    level_text="seeded search over rate-control sessions: MTU collapses and recoveries, bitrate/VBR/CVBR/CBR churn between frames of all durations; exact-size output block, exact CBR size formula, BITRATE_MAX fill, multistream CBR constancy, calibrated constrained-VBR long-term mean, plus the full C02 validity/lock-step oracle on every packet produced under a capacity fault",
+    level_text="seeded search over rate-control sessions: MTU collapses and recoveries, bitrate/VBR/CVBR/CBR churn between frames of all durations; exact-size output block, exact CBR size formula, BITRATE_MAX fill, exact multistream CBR size and constancy, constrained-VBR long-term mean calibrated per (mode family, rate, material) cell, plus the full C02 validity/lock-step oracle on every packet produced under a capacity fault",
     level_note=_NOTE + "CVBR long-term bound is calibrated (calib/thresholds.json) with a stated precondition",
     technique=_TECH + "capacity faults on the encoder output path, exact size oracle + calibrated long-term rate oracle")
 PROPS["C07"].update(
@@ -217,7 +217,7 @@ PROPS["C12"].update(
     level_note=_NOTE + "uninitialised reads that never influence an output are not detected",
     technique=_TECH + "crash/restart-style state faults (snapshot, migrate, reset) with twin-equality oracle across two environments")
 PROPS["C16"].update(
-    level_text="seeded search over extension-carrying middlebox sessions: generate/parse/count/iterate round trips with capacity faults and corrupted padding, and carriage of extensions through repacketizer merges and splits against an extension-list model",
+    level_text="seeded search over extension-carrying middlebox sessions: generate/parse/count/iterate/frame-limited-iterate/find round trips with capacity faults and corrupted padding, and carriage of extensions through repacketizer merges and splits against an extension-list model",
     level_note=_NOTE + "the list<->bytes bijection itself is exercised at exploration strength only",
     technique=_TECH + "capacity/corruption faults on the extension area and repacketizer carriage, extension-list reference model")
 PROPS["C14"].update(
